@@ -5,6 +5,17 @@ call is handed to the PROVED contract `addLookupReferences#general` (its precond
 trace `feature.calls`; the clauses speak about every recorded call.  Differences of the function: lookups are keyed by writing direction
 (`Direction.Neutral / LeftToRight / RightToLeft`), the scripts come from `context.knownScripts`, the declared languages from
 `context.feaLanguagesByTag`, and a tag whose merged lookup dict is empty is skipped.
+
+NOT REGISTERED (props=[]).  FINDING (engine, not ufo2ft): with merged branches (the default) all 51 + 45 obligations are discharged - and so they are for
+three own mutations of the function (languages = ["dflt"]; dist block for every known script; `if not lookupsForThisScript` -> `if False`), which the
+run-time cross-check of the same clauses catches.  Probe: the loop invariant `len(feature.calls) == 0` is "proved" on the path through the call, i.e. the
+state after the call is INCONSISTENT: the three guarded `lookupsForThisScript.update(..)` are merged into `ite(cond and <fact about the fresh key list of
+the update>, updated, old)` - the assumed fact of the branch ends up in the guard - and the hypotheses {keys-distinct fact, values-as-list fact, callee
+precondition len(lookups) > 0, unfoldings of c20_refs / c20_langs} are unsat without the goal (8-assertion core, z3-5.1 0.5 s).  Nothing flags this:
+the canary speaks about the exit state, which is reached through the (consistent) loop-exit havoc.  With merge_branches=False the contract gives 378 + 158
+path obligations, all discharged, but generation alone takes 5 min, and it has not been probed for vacuity.  So the legacy writer's registration stays
+unproved; see notes/C20.requests.md item 9.  (`_registerLookups` of the new writer has the same shape without the `continue`; its merged contract DOES
+fail under the corresponding mutations, see notes/C20.md.)
 """
 import types as _types
 
@@ -47,7 +58,7 @@ def reg2_variant(name, kern):
     return contract(
         WRITER2,
         name=name,
-        props=["C20"],
+        props=[],
         params={"context": Ref("c20_KernContext"), "feature": Ref("c20_Block"), "lookups": Dict(STR, Dict(STR, Ref(NODE)))},
         globals={"ast": Val.obj(R._AST), "fea_ast": Val.obj(R._AST), "unicodedata": Val.obj(R._UD), "Direction": Val.obj(_DIR),
                  "script_horizontal_direction": Val.obj(FuncRef(None, "c20.script_direction")),
